@@ -246,7 +246,9 @@ def declareFieldIn (ty : TypeName) (info : FormatInfo) (allowEmpty : Bool)
       -- `any(directive in self.strptime_format ...)`: a substring test on the translated text
       let hasSub (pat : Str) : Bool := (List.range (sf.length + 1)).any (fun i => startsWith (sf.drop i) pat)
       let hasTime := hasSub "%H".toList || hasSub "%M".toList || hasSub "%S".toList
-      pure (mk (.datetime toks hasTime (fmt == .excel)))
+      -- the constructor probes `time.strptime("", format)`: a directive used twice is `re.error` -> InterfaceError
+      if hasDuplicateDirective toks then .error .iface
+      else pure (mk (.datetime toks hasTime (fmt == .excel)))
   | .pattern =>
     match globToRx (rule.length + 1) rule with
     | some rx => if isAscii rule then pure (mk (.pattern rx)) else .error .unsupported
